@@ -6,7 +6,9 @@ import sys
 
 import engine as E
 
-SPECIAL = {}
+import c15
+
+SPECIAL = {"C15": c15.run}
 
 
 def replay(pid, path):
